@@ -7,7 +7,9 @@
 (*   br        current branch          heads   branch -> commit (0: none)  *)
 (*   commits   sequence of [parent, files]   (files = the version texts a  *)
 (*             commit holds: config value, {version} occurrence,           *)
-(*             {pep440_version} occurrence)                                *)
+(*             {pep440_version} occurrence, and the occurrence of a        *)
+(*             PARTIAL pattern (GenPartial, e.g. series MAJOR.MINOR) kept  *)
+(*             in a file of its own)                                       *)
 (*   tags      set of [name, at, ver]  (ver: the name parsed once)         *)
 (*   wt        working tree: the same three texts;  dirty: uncommitted     *)
 (*   day       the date (never decreases)                                  *)
@@ -16,8 +18,9 @@
 (*             proceed; the modification must stay out of the bump commit)  *)
 (*   cscope    the project's configured tag scope (fixed for a history:    *)
 (*             `show` and `update` then resolve the version the same way)  *)
-(*   pend      the invocation being chosen (parameters are picked in a     *)
-(*             cheap step of their own, then Update evaluates once)        *)
+(*   pend      the step being chosen: first WHICH kind of step (so that    *)
+(*             simulation picks branch switches as often as updates), then *)
+(*             the parameters of an invocation, then Update evaluates once *)
 (*   last      what the last step did (read by the invariants)             *)
 (*   hist      history variable for export (hidden from the state space    *)
 (*             by a VIEW in the exhaustive configuration)                  *)
@@ -35,7 +38,7 @@ Branches == {"main", "feat"}
 Scopes == {"default", "global", "branch"}
 DP == Pep440Pattern(GenP)
 PepOf(text) == Render(ParseVersion(text, GenP, GenToday), DP)
-Files(text) == [cfg |-> text, ver |-> text, pep |-> PepOf(text)]
+Files(text) == [cfg |-> text, ver |-> text, pep |-> PepOf(text), part |-> Render(ParseVersion(text, GenP, GenToday), GenPartial)]
 NoPend == [none |-> TRUE]
 Init == /\ br = "main" /\ commits = << [parent |-> 0, files |-> Files(GenV0)] >> /\ heads = [main |-> 1, feat |-> 0]
         /\ tags = {} /\ wt = Files(GenV0) /\ dirty = FALSE /\ day = GenDay0 /\ pend = NoPend /\ last = [act |-> "init"] /\ hist = <<>>
@@ -53,14 +56,26 @@ Resolve(scope) == LET ts == TagsInScope(scope) cv == TagVer(wt.cfg) IN
                   ELSE LET m == MaxTagRec(ts) IN IF scope = "default" /\ CmpRec(m.ver, cv) <= 0 THEN wt.cfg ELSE m.name
 
 Log(rec) == hist' = Append(hist, rec)
+\* which kind of step comes next: chosen uniformly among the kinds that are possible in the current state
+Kinds == {"update", "touchother", "usercommit", "unrelated", "newbranch", "switch"}
+Possible(k) == CASE k = "update" -> TRUE
+                 [] k = "touchother" -> ~otherDirty
+                 [] k = "usercommit" -> dirty \/ otherDirty
+                 [] k = "unrelated" -> ~dirty /\ ~otherDirty
+                 [] k = "newbranch" -> ~dirty /\ ~otherDirty /\ heads.feat = 0
+                 [] k = "switch" -> ~dirty /\ ~otherDirty /\ \E b \in Branches : b # br /\ heads[b] # 0
+StepKind(k) == pend = [kind |-> k]
+Pick == /\ pend = NoPend /\ Len(hist) < GenDepth
+        /\ \E k \in Kinds : Possible(k) /\ pend' = [kind |-> k]
+        /\ UNCHANGED <<br, heads, commits, tags, wt, dirty, day, last, hist, cscope, otherDirty>>
 \* parameters of the next invocation (tag/push need commit; without a tag only scope default is meaningful, see DESIGN C08)
-Choose == /\ pend = NoPend /\ Len(hist) < GenDepth
+Choose == /\ StepKind("update")
           /\ \E f \in GenFlagSets, c \in BOOLEAN, t \in BOOLEAN, dd \in GenDayStep, al \in BOOLEAN :
                /\ (t => c) /\ (~t => cscope = "default") /\ (al => otherDirty /\ c)
                /\ pend' = [f |-> f, scope |-> cscope, commit |-> c, tagit |-> t, day |-> day + dd, allow |-> al]
           /\ UNCHANGED <<br, heads, commits, tags, wt, dirty, day, last, hist, cscope, otherDirty>>
 Update ==
-  /\ pend # NoPend
+  /\ "f" \in DOMAIN pend
   /\ LET f == pend.f scope == pend.scope commit == pend.commit tagit == pend.tagit
          start == Resolve(scope)
          out == Incr(start, GenP, f, pend.day, GenToday, Dev)
@@ -83,26 +98,26 @@ Update ==
                 new |-> IF ok1 THEN out ELSE None, wt |-> IF ok2 /\ ~blocked THEN Files(out) ELSE wt,
                 ntags |-> Cardinality(IF ok /\ tagit THEN tags \cup {[name |-> out]} ELSE {[name |-> t.name] : t \in tags})])
   /\ day' = pend.day /\ pend' = NoPend /\ UNCHANGED <<br, cscope, otherDirty>>
-TouchOther == /\ pend = NoPend /\ ~otherDirty /\ Len(hist) < GenDepth /\ otherDirty' = TRUE
-              /\ last' = [act |-> "touchother"] /\ Log([act |-> "touchother"]) /\ UNCHANGED <<br, heads, commits, tags, wt, dirty, day, pend, cscope>>
-UserCommit == /\ pend = NoPend /\ (dirty \/ otherDirty) /\ Len(hist) < GenDepth /\ otherDirty' = FALSE
+TouchOther == /\ StepKind("touchother") /\ pend' = NoPend /\ otherDirty' = TRUE
+              /\ last' = [act |-> "touchother"] /\ Log([act |-> "touchother"]) /\ UNCHANGED <<br, heads, commits, tags, wt, dirty, day, cscope>>
+UserCommit == /\ StepKind("usercommit") /\ pend' = NoPend /\ otherDirty' = FALSE
               /\ commits' = Append(commits, [parent |-> heads[br], files |-> wt]) /\ heads' = [heads EXCEPT ![br] = Len(commits) + 1]
-              /\ dirty' = FALSE /\ last' = [act |-> "usercommit"] /\ Log([act |-> "usercommit"]) /\ UNCHANGED <<br, tags, wt, day, pend, cscope>>
-Unrelated == /\ pend = NoPend /\ ~dirty /\ ~otherDirty /\ Len(hist) < GenDepth
+              /\ dirty' = FALSE /\ last' = [act |-> "usercommit"] /\ Log([act |-> "usercommit"]) /\ UNCHANGED <<br, tags, wt, day, cscope>>
+Unrelated == /\ StepKind("unrelated") /\ pend' = NoPend
              /\ commits' = Append(commits, [parent |-> heads[br], files |-> wt]) /\ heads' = [heads EXCEPT ![br] = Len(commits) + 1]
-             /\ last' = [act |-> "unrelated"] /\ Log([act |-> "unrelated"]) /\ UNCHANGED <<br, tags, wt, dirty, day, pend, cscope, otherDirty>>
-NewBranch == /\ pend = NoPend /\ ~dirty /\ ~otherDirty /\ heads.feat = 0 /\ Len(hist) < GenDepth /\ heads' = [heads EXCEPT !.feat = heads[br]] /\ br' = "feat"
-             /\ last' = [act |-> "newbranch"] /\ Log([act |-> "newbranch"]) /\ UNCHANGED <<commits, tags, wt, dirty, day, pend, cscope, otherDirty>>
-Switch(b) == /\ pend = NoPend /\ ~dirty /\ ~otherDirty /\ b # br /\ heads[b] # 0 /\ Len(hist) < GenDepth /\ br' = b /\ wt' = commits[heads[b]].files
-             /\ last' = [act |-> "switch"] /\ Log([act |-> "switch", to |-> b, wt |-> commits[heads[b]].files]) /\ UNCHANGED <<heads, commits, tags, dirty, day, pend, cscope, otherDirty>>
-Next == Choose \/ Update \/ TouchOther \/ UserCommit \/ Unrelated \/ NewBranch \/ \E b \in Branches : Switch(b)
+             /\ last' = [act |-> "unrelated"] /\ Log([act |-> "unrelated"]) /\ UNCHANGED <<br, tags, wt, dirty, day, cscope, otherDirty>>
+NewBranch == /\ StepKind("newbranch") /\ pend' = NoPend /\ heads' = [heads EXCEPT !.feat = heads[br]] /\ br' = "feat"
+             /\ last' = [act |-> "newbranch"] /\ Log([act |-> "newbranch"]) /\ UNCHANGED <<commits, tags, wt, dirty, day, cscope, otherDirty>>
+Switch(b) == /\ StepKind("switch") /\ pend' = NoPend /\ b # br /\ heads[b] # 0 /\ br' = b /\ wt' = commits[heads[b]].files
+             /\ last' = [act |-> "switch"] /\ Log([act |-> "switch", to |-> b, wt |-> commits[heads[b]].files]) /\ UNCHANGED <<heads, commits, tags, dirty, day, cscope, otherDirty>>
+Next == Pick \/ Choose \/ Update \/ TouchOther \/ UserCommit \/ Unrelated \/ NewBranch \/ \E b \in Branches : Switch(b)
 Spec == Init /\ [][Next]_vars
 
 \* ---------- C08 ----------
 Succeeded == last.act = "update" /\ last.ok
 \* config value, every occurrence and - when this update tagged - the newest tag all denote the announced version
 Agreement == Succeeded =>
-   /\ wt.cfg = last.new /\ wt.ver = last.new /\ wt.pep = PepOf(last.new)
+   /\ wt.cfg = last.new /\ wt.ver = last.new /\ wt.pep = PepOf(last.new) /\ wt.part = Files(last.new).part
    /\ (last.tagit => \E t \in tags : t.name = last.new /\ t.at = heads[br])
    /\ (last.tagit => \A t \in TagsInScope(last.scope) : CmpRec(t.ver, TagVer(last.new)) <= 0)
    /\ (last.commit => commits[heads[br]].files = wt)
